@@ -846,8 +846,12 @@ func (f *fragment) unprotectedSetRow(row *Row, rowID uint64) (changed bool, err 
 	// invalidate rowCache for this row.
 	f.rowCache.Add(rowID, nil)
 
-	// Snapshot storage.
-	f.enqueueSnapshot()
+	// Snapshot storage. The row was replaced directly in storage without an
+	// op-log entry, so it is durable only once the snapshot is written: write
+	// it before acknowledging instead of leaving it to the background queue.
+	if err := f.snapshot(); err != nil {
+		return changed, errors.Wrap(err, "snapshotting")
+	}
 	f.stats.Count("setRow", 1, 1.0)
 
 	return changed, nil
@@ -890,8 +894,11 @@ func (f *fragment) unprotectedClearRow(rowID uint64) (changed bool, err error) {
 	f.cache.Add(rowID, 0)
 	f.rowCache.Add(rowID, nil)
 
-	// Snapshot storage.
-	f.enqueueSnapshot()
+	// Snapshot storage. As in setRow there is no op-log entry, so write the
+	// snapshot before acknowledging.
+	if err := f.snapshot(); err != nil {
+		return changed, errors.Wrap(err, "snapshotting")
+	}
 
 	f.stats.Count("clearRow", 1, 1.0)
 
